@@ -547,7 +547,12 @@ class StateMachine:
         """
         self.next_state(state)
         # TODO: may want to do this differently?
+        # the nested iteration must not use up the engage() request of the
+        # iteration it runs in, or a second next_state_now() from the same
+        # state function would stop the machine instead of running its target
+        should_engage = self.__should_engage
         self.execute()
+        self.__should_engage = should_engage
 
     def done(self) -> None:
         """Call this function to end execution of the state machine.
